@@ -193,6 +193,9 @@ int LLVMFuzzerTestOneInput(const uint8_t *data, size_t size)
     }
 
     ledger_reset_counters();
+    /* dead stack contents: chosen by the two top bits of the selector byte (none, '7', '1', 'e') */
+    probe_set_stack_fill("\0" "71e"[(sel >> 6) & 3]);
+    probe_stack_fill();
     switch (entry)
     {
         case 0:
